@@ -4,6 +4,7 @@ import (
 	"bytes"
 	"context"
 	"encoding/binary"
+	"encoding/hex"
 	"fmt"
 	"os"
 	"os/exec"
@@ -523,6 +524,20 @@ var probes = []probe{
 		buf.Write(le32(1 << 20))
 		buf.Write(p2p.VarInt(1 << 40))
 		return hostileCase{Stage: 2, Chunks: [][]byte{p2p.Encode(p2p.Frame{Command: "protoconf", Payload: buf.Bytes()})}}
+	}},
+	{"C15-blockoverread", "requested block announcing 2 transactions but carrying 1, followed by another block frame and a tx (the shrunk thorough-tier case, byte for byte): the second transaction was parsed out of the NEXT message's bytes (a 4 GiB script length)", func() hostileCase {
+		unhex := func(h string) []byte {
+			b, err := hex.DecodeString(h)
+			if err != nil {
+				panic(err)
+			}
+			return b
+		}
+		return hostileCase{Stage: 3, TxManager: true, RequestBlock: true, Chunks: [][]byte{
+			unhex("e3e1f3e8626c6f636b0000000000000093000000d833f27a010000000000000000000000000000000000000000000000000000000000000000000000000000000000000000000000000000000000000000000000000000000000000000000000ffff001d000000000201000000010000000000000000000000000000000000000000000000000000000000000000000000000151ffffffff010100000000000000016a00000000540a007d"),
+			unhex("e3e1f3e8626c6f636b000000000000009800000001d3dd8b010000000000000000000000000000000000000000000000000000000000000000000000000000000000000000000000000000000000000000000000000000000000000000000000ffff001d00000000ffffffffffffffffff01000000010000000000000000000000000000000000000000000000000000000000000000000000000151ffffffff010100000000000000016a00000000d8"),
+			unhex("e3e1f3e87478000000000000000000003e000000635f952001000000010000000000000000000000000000000000000000000000000000000000000000000000000151ffffffff010100000000000000016a00000000"),
+		}}
 	}},
 	{"C15-wirecounts", "requested block whose first transaction declares 2^40 inputs", func() hostileCase {
 		var buf bytes.Buffer
